@@ -380,8 +380,20 @@ def result_error_edges(body, call_nids):
         if hit:
             for l, v in info.edge_vals.items():
                 if v == "Err":
-                    out.append((s, l))
-    return out
+                    out.append((s, l, root.key()))
+    # drop re-tests of the same value (drop elaboration re-reads the discriminant after the match):
+    # keep a switch only if it can be reached from the call without passing another test of the same root
+    res = []
+    for (s, l, k) in out:
+        others = {s2 for (s2, _, k2) in out if k2 == k and s2 != s}
+        others |= {s2 for s2 in A.switches(body) if s2 != s and A.switch_info(body, s2).root.key() == k}
+        starts = []
+        for c in call_nids:
+            starts += A.succs(body, c)
+        r, _ = A.reach(body, starts, blocked_nodes=others, sensitive=False)
+        if s in r:
+            res.append((s, l))
+    return res
 
 
 def check_error_absorbed(ctx, inst, body, call_nids, err_local_name):
